@@ -27,6 +27,30 @@ WAVES = {
   'C20c': "Focus on introducing a data race or order-dependent result in a read-only method (MarshalBinary, String, Equal, Clone, Mul with the object as operand) of scalars (group/mod Int, edwards25519 scalar), group/edwards25519vartime points, group/p256 points, or a BLS12-381 adapter point. Do NOT touch pairing/bn256 (already covered).",
   'C20d': "Focus on scheme-level objects shared for reading across goroutines: sign/bdn Mask and CachedMask, sign/cosi Mask, a shared Suite's methods, share.PriPoly/PubPoly methods other than Eval, sign/bls or sign/tbls verification with shared keys. Do NOT touch PubPoly.Eval (already covered).",
  },
+ '3': {
+  'C03d': "Focus on 'Equal if and only if identical encodings' and 'encoding never changes the value' for points held in non-normalised internal coordinates (projective / extended / Jacobian forms after Add/Mul) or for the identity and other rare values, in ONE group implementation. Do NOT touch util/encoding, group/internal/marshalling or the gnark scalar (already covered).",
+  'C03e': "Focus on the WRITE side: MarshalTo of one point/scalar type, suite.Write / fixed-length struct encoding (util or group/internal code that writes), returned byte counts, rare values (identity, values with leading zero bytes) whose encoding length or content goes wrong. Do NOT touch getHex, PointUnmarshalFrom/ScalarUnmarshalFrom or the gnark scalar (already covered).",
+  'C04d': "Focus on SCALAR decoders (UnmarshalBinary/UnmarshalFrom/SetBytes of scalars: lengths, values >= group order, mod.Int byte orders) or on the subgroup / on-curve checks of G2 or GT decoders (bn256, bn254, one BLS12-381 adapter). Do NOT touch group/p256, sign/anon or sign/cosi (already covered).",
+  'C04e': "Focus on parsers/verifiers of composite untrusted messages other than anon and cosi: proof.HashVerify (proof/hash.go), proof/dleq, encrypt/ecies Decrypt, sign/eddsa Verify, sign/schnorr Verify, sign/bls Verify, vss Deal/EncryptedDeal decoding: a rare malformed or truncated input that panics.",
+  'C09e': "Focus on plain BLS (sign/bls): Verify, AggregateSignatures, AggregatePublicKeys, BatchVerify - e.g. a signature or key that is semantically different but accepted, or an honest aggregate refused, for a rare combination. Do NOT touch sign/tbls Recover, sign/bdn, sign/cosi (already covered).",
+  'C09f': "Focus on sign/tbls other than the 'seen' bookkeeping of Recover (SigShare index encoding/parsing, Sign, VerifyPartial, interplay with share.RecoverCommit/PubPoly) or on sign/bdn AggregateSignatures / coefficient derivation. Do NOT touch bdn AggregatePublicKeys, bdn Mask.Merge or sign/cosi (already covered).",
+  'C09g': "Focus on sign/cosi other than SetMask/CountEnabled: Commit, AggregateCommitments, Challenge, Response, AggregateResponses, Sign, Verify's checks, AggregateMasks, policies' Check.",
+  'C10e': "Focus on the encryption/authentication path of the deals in either VSS variant: dh.go (DH exchange, HKDF context, AEAD nonce), EncryptedDeal signature over the ephemeral key, decryptDeal's recipient/dealer binding. Do NOT touch verifyJustification, verifyResponse or cleanVerifiers (already covered).",
+  'C10f': "Focus on VerifyDeal (index, threshold, session id, share-vs-commitment check) or on RecoverSecret / 'certified implies any t deals recover the secret' in either VSS variant, or on the session id computation. Do NOT touch verifyJustification, verifyResponse or cleanVerifiers (already covered).",
+  'C11g': "Focus on the Pedersen DKG state machine for a FRESH key generation (share/dkg/pedersen/dkg.go and status.go): ProcessResponses / ProcessJustifications, the status matrix, eviction lists, computeResult and the final share/commitment sums. Do NOT touch the inner loop of ProcessDeals or the threshold used in the response phase (already covered).",
+  'C11h': "Focus on the phases of the Pedersen Protocol driver (share/dkg/pedersen/protocol.go): TimePhaser / phase transitions, packets that arrive before or after their phase, the fast-sync start/finish conditions, what is sent when a phase has collected nothing. Do NOT touch Protocol.verify or the set type's isBad (already covered).",
+  'C11i': "Focus on the late phases of the Rabin DKG (share/dkg/rabin/dkg.go): ProcessComplaintCommits, ProcessReconstructCommits, Finished, DistKeyShare (summing shares and commitments over QUAL). Do NOT touch ProcessSecretCommits or ProcessResponse (already covered).",
+  'C12d': "Focus on sign/dss session binding and partial-signature verification: the session id (hash of keys/commitments/message), which public share a partial is verified against, partials for another message or session, the long-term vs random DKS roles. Do NOT touch PartialSig's own-index bookkeeping, Signature()'s threshold or share.RecoverSecret (already covered).",
+  'C13c': "Focus on proof/dleq itself (NewDLEQProof, NewDLEQProofBatch, Verify: which points/bases enter the challenge hash, index handling in the batch) or on pvss DecShare / RecoverSecret index and threshold handling. Do NOT touch VerifyEncShareBatch or VerifyDecShareBatch (already covered).",
+  'C14e': "Focus on the VERIFIER side of the predicates in proof/proof.go (repPred.verify, andPred.verify, orPred.verify: the check that the sub-challenges of an Or combine to the master challenge, variable bookkeeping shared across terms/branches) or on the prover's respond step. Do NOT touch And(), orPred.commit or proof/deniable.go (already covered).",
+  'C14f': "Focus on proof/hash.go: how the protocol name, public points and commitments enter the challenge, trailing or missing bytes of a proof, HashVerify against a different protocol name or different public points. Do NOT touch proof/proof.go's And()/orPred.commit or proof/deniable.go (already covered).",
+  'C18d': "Focus on making the CIRCL or the Kilic BLS12-381 adapter disagree with the other back-ends for rare inputs: hash-to-curve domain tags, scalar SetBytes/SetInt64 reduction, encoding of the identity or of GT elements, Mul by zero or by the group order. Do NOT touch pairing/bn256 or group/edwards25519 (already covered).",
+  'C18e': "Focus on the `constantTime` build configuration (go build -tags constantTime: group/mod's Int goes through compatible/ and compatible/bigmod instead of math/big): make it disagree with the default build for rare values (leading zero bytes, values near the modulus, Exp/Inv/Div/Jacobi/SetBytes/byte order), while the default-build tests still pass and ideally the constantTime tests too.",
+  'C19e': "Focus on xof/blake2xs or xof/blake2xb OTHER than Reseed: Clone (shared buffers), Write after Read, XORKeyStream with dst/src aliased or of unequal length, Read in chunks across the internal block boundary. Do NOT touch Reseed of blake2xb or keccak (already covered).",
+  'C19f': "Focus on util/random Bits / Bytes (bit-length edge cases, the exact flag, lengths that are not a multiple of 8) and random.New with no readers or repeated calls; or on Scalar.Pick / mod.Int.Pick consuming the stream. Do NOT touch random.Int's loop or randstream.XORKeyStream's reader loop (already covered).",
+  'C20e': "Focus on a data race or order-dependent result in read-only use of shared SCALARS (group/mod Int: lazy reduction, cached byte forms; edwards25519 scalar) or of a shared Suite object (XOF(), Hash(), RandomStream(), Point()/Scalar() factories with hidden shared state). Do NOT touch bn256 points, edwards25519vartime points, share.PubPoly.Eval or sign/bls (already covered).",
+  'C20f': "Focus on a data race or order-dependent result in read-only methods of BLS12-381 adapter points (kilic, circl or gnark: MarshalBinary, Equal, String, Clone, Pair), of pairing/bn254 points, of share.PriPoly/PubPoly methods other than Eval, or of sign/bdn CachedMask / sign/cosi Mask queries. Do NOT touch bn256 points, edwards25519vartime points, PubPoly.Eval or sign/bls Verify (already covered).",
+ },
 }
 TMPL = '''You are working in a scratch git worktree of the Go library dedis/kyber located at {d} . Work ONLY inside {d} (never touch /repo, /verif or any other directory; never run `git commit`, `git checkout` of other branches, or `git worktree` commands).
 
